@@ -482,11 +482,21 @@ func TestC19_SocketWouldBlock(t *testing.T) {
 				break
 			}
 		}
+		starved := 0
 		for iter := 0; failure == "" && (wi < len(items) || ri < len(items)); iter++ {
 			startWrite()
 			startRead()
 			poll()
-			if iter > 20000 {
+			// every write reported success, nothing is left in either socket, and the reader still waits for an item:
+			// bytes the writer was told had gone out never did
+			if wi == len(items) && !writing && reading && sysx.Unsent(sender.RawFd()) == 0 && sysx.Unread(receiver.RawFd()) == 0 {
+				if starved++; starved > 25 {
+					failure = fmt.Sprintf("all %d writes completed with success and both sockets are drained, but item #%d (%d bytes) has not been delivered: the reader holds %d undecoded bytes - part of an item never reached the wire", len(items), ri, len(items[ri]), rsrc.ReadLen()+rsrc.WriteLen())
+				}
+			} else {
+				starved = 0
+			}
+			if iter > 3000 {
 				t.Fatalf("INFRA: no progress (written %d read %d of %d); sizes=%v", wi, ri, len(items), sizes)
 			}
 		}
